@@ -14,7 +14,7 @@ RULE = ('Hypothesis: sequences of 1..12 typed values (u/i 8/16/32/64 over full r
         '(build/to_registers/to_string must not change what is built later), re-use the builder after reset(), step over '
         'items with skip_bytes and decode a second time after the decoder\'s reset(). Non-trivial: some 32/64-bit item '
         'whose expected image differs from plain network order (order actually mattered) or odd '
-        'total length; distinct by SHA-1 of the case.')
+        'total length; distinct by SHA-1 of the case. A sweep places values next to each other that compare equal across type, sign or width (1 / 1.0, 0.0 / -0.0, u16 5 / u32 5).')
 ASSUMPTIONS = ['struct.pack of a float at its own width is the IEEE-754 reference encoding',
                'NaN values are compared by isnan (payload preservation is a property of the C cast, not of pymodbus)']
 BUDGET = {'quick': 4000, 'thorough': 25000}
